@@ -8,7 +8,9 @@ package main
 import (
 	"errors"
 	"fmt"
+	"os"
 	"strconv"
+	"syscall"
 
 	"github.com/alicebob/miniredis/v2"
 	"github.com/zeromicro/go-zero/core/hash"
@@ -347,6 +349,14 @@ func runCluster(c Case) (out Out) {
 }
 
 func main() {
+	// a changed tree may allocate without bound on hostile inputs (replica counts up to 2^63 are generated):
+	// fail in this process (runtime: out of memory) instead of exhausting the shared machine
+	mb := uint64(6144)
+	if v, err := strconv.ParseUint(os.Getenv("VERIF_C15_AS_MB"), 10, 64); err == nil && v >= 512 {
+		mb = v
+	}
+	lim := syscall.Rlimit{Cur: mb << 20, Max: mb << 20}
+	_ = syscall.Setrlimit(syscall.RLIMIT_AS, &lim)
 	logx.Disable()
 	var cases []Case
 	hx.ReadCases(&cases)
